@@ -891,6 +891,7 @@ impl Real {
                         if let Some(a) = map.item(i) {
                             let an = a.as_node();
                             attrs.push(AttrObs {
+                                qname: guarded(|| format!("{}", a)).ok().and_then(|s| s.split('=').next().map(|q| q.trim().to_string())).unwrap_or_default(),
                                 name: a.name(),
                                 value: a.value().unwrap_or_else(|e| format!("<ERR {}>", e)),
                                 specified: a.specified(),
